@@ -5,9 +5,11 @@ import (
 	"bytes"
 	"compress/gzip"
 	"fmt"
+	"html"
 	"io"
 	"os"
 	"path/filepath"
+	"regexp"
 	"strconv"
 	"strings"
 	"sync"
@@ -184,6 +186,10 @@ type world struct {
 	slash   *route.Engine
 }
 
+var oddNames = []string{"a%41.txt", "aA.txt", "what?.txt", "what", "c#.txt", "c", "50%25off.txt", "50%off.txt", "sp ace.txt", "plus+.txt", "am&p.txt", "q\"uote.txt"}
+
+var hrefRe = regexp.MustCompile(`<a href="([^"]*)" class="(file|dir)">([^<]*)</a>`)
+
 func setup() (*world, error) {
 	dir, err := os.MkdirTemp("", "verif-c08-")
 	if err != nil {
@@ -221,6 +227,14 @@ func setup() (*world, error) {
 	// handler creates is taken by a directory
 	os.WriteFile(filepath.Join(wd.root, "u.txt"), bytes.Repeat([]byte("compress me "), 500), 0o644)
 	os.MkdirAll(filepath.Join(wd.root, "u.txt.hertz.gz.tmp"), 0o755)
+	// a directory whose entries have names that mean something in a URI (the links of its
+	// generated listing must still lead to them)
+	os.MkdirAll(filepath.Join(wd.root, "d5", "q?x"), 0o755)
+	for _, n := range oddNames {
+		os.WriteFile(filepath.Join(wd.root, "d5", n), []byte("CONTENT-OF:"+n), 0o644)
+	}
+	os.WriteFile(filepath.Join(wd.root, "d5", "q?x", "in.txt"), []byte("CONTENT-OF:q?x/in.txt"), 0o644)
+	os.WriteFile(filepath.Join(wd.root, "in.txt"), []byte("CONTENT-OF:root-in.txt"), 0o644)
 	// ... and one whose compressed copy's own name is taken by a directory
 	os.WriteFile(filepath.Join(wd.root, "v.txt"), bytes.Repeat([]byte("compress me "), 500), 0o644)
 	os.MkdirAll(filepath.Join(wd.root, "v.txt.hertz.gz"), 0o755)
@@ -636,6 +650,59 @@ func work(w *mon.W) {
 		if msgs[1].Status != 200 || !bytes.Equal(msgs[1].Body, content(L, L)) {
 			c.Violate("fs-response", "engine slash-root, GET /s%s: status %d, %d body bytes; want the %d bytes of the file", abs, msgs[1].Status, len(msgs[1].Body), L)
 		}
+	})
+	// listing-links: every entry of a generated listing is linked by a target that, requested
+	// from the same handler, serves that entry (names are data, not URI references)
+	w.Cases("listing-links", uint64(w.Pick(12, 120)), func(c *mon.Case) {
+		r := c.R
+		en := wd.engines[3]
+		dir := r.Str("d5/", "d5/q%3Fx/")
+		get := func(target string) (*wire.Message, string) {
+			sc := sconn.New([][]byte{[]byte("GET " + target + " HTTP/1.1\r\nHost: x\r\n\r\n")}, sconn.EOF)
+			res := rig.Serve(en.e, sc, 4096, false, 30*time.Second)
+			if res.Hang || res.Panic != nil {
+				return nil, fmt.Sprintf("hang/panic %v", res.Panic)
+			}
+			msgs, err := wire.ParseResponses(res.Out, []string{"GET"}, true)
+			if err != nil || len(msgs) != 1 {
+				return nil, fmt.Sprintf("malformed response: %v", err)
+			}
+			return msgs[0], ""
+		}
+		c.Detail = func() interface{} { return map[string]interface{}{"engine": en.name, "listing": "/s/" + dir} }
+		lst, e := get("/s/" + dir)
+		if e != "" || lst.Status != 200 {
+			c.Violate("fs-response", "listing of /s/%s: %s status %v", dir, e, lst)
+			return
+		}
+		links := hrefRe.FindAllStringSubmatch(string(lst.Body), -1)
+		n := 0
+		for _, m := range links {
+			href, class, name := html.UnescapeString(m[1]), m[2], html.UnescapeString(m[3])
+			if class != "file" || name == ".." {
+				continue
+			}
+			want := "CONTENT-OF:" + name
+			if dir != "d5/" {
+				want = "CONTENT-OF:q?x/" + name
+			}
+			got, e := get(href)
+			n++
+			w.Count("listing_links_followed", 1)
+			if e != "" || got.Status != 200 || string(got.Body) != want {
+				st, body := 0, ""
+				if got != nil {
+					st, body = got.Status, trunc(string(got.Body), 60)
+				}
+				c.Violate("listing-link", "engine %s, listing of /s/%s: the entry %q is linked as %q; requesting that gives %s status %d body %q, want the entry's %q", en.name, dir, name, href, e, st, body, want)
+				return
+			}
+		}
+		if n == 0 {
+			c.Violate("listing-link", "listing of /s/%s names no file entry: %q", dir, trunc(string(lst.Body), 300))
+			return
+		}
+		w.Shape(mon.Hash64("listing-links", dir, n))
 	})
 	// replaced files: a file that was served compressed (a .hertz.gz sidecar exists next
 	// to it) is replaced by other content — with a newer, an equal or an *older*
